@@ -280,6 +280,9 @@ def checker (model : Bool) : Checker where
                   <|> (checkWake (wakeBound + 4 * jit) st.cap st.calls)
         let r := r <|> (if model then modelExplains ⟨st.disc, st.cap⟩ tol st.calls else none)
         ({ st with active := false }, r)
+    | [_, _, "cancel", _, _] | [_, _, "await", _, _] | [_, _, "mark", _, _] =>
+      -- scheduling directives of the scenario (explicit cancellation / barriers), not calls on the queue
+      (st, none)
     | _ =>
       if !st.active then (st, some "no-case")
       else match parseCall ws obs with
